@@ -9,8 +9,8 @@ def base_cfg(maxv, mech, auth=0):
             'ems': True, 'etm': True, 'reqcert': True, 'menu': 0, 'auth': auth}
 
 
-def conn(maxv, offer=None, srv=0, menu=0, ems=True, etm=True, sni=1, ccert=1, kind=0, srp=1):
-    return {'e': 'conn', 'srv': srv, 'maxv': maxv, 'menu': menu, 'ems': ems, 'etm': etm, 'sni': sni,
+def conn(maxv, offer=None, srv=0, menu=0, ems=True, etm=True, sni=1, ccert=1, kind=0, srp=1, half=0):
+    return {'half': half, 'e': 'conn', 'srv': srv, 'maxv': maxv, 'menu': menu, 'ems': ems, 'etm': etm, 'sni': sni,
             'ccert': ccert if kind == 0 else 0, 'offer': offer, 'kind': kind, 'srp': srp if kind == 1 else 0}
 
 
@@ -100,6 +100,18 @@ def middles(c, v, mech):
         # also EC groups (suite acceptable but not offered: illegal_parameter)
         ('anon-client-ffdh-only', [close(0)], {'kind': 2, 'menu': 5}),
         ('anon-client-ec', [close(0)], {'kind': 2, 'menu': 0}),
+        # overlapping lifetimes: B is resumed from the session while A (the original) is still open; every order
+        # of {failure on one, clean close on the other}: the shared Session / cache object must stay invalid
+        ('overlap-fatalA-cleanB', [conn(v, offer=0), close(0, 1), close(1, 0)], {}),
+        ('overlap-cleanB-fatalA', [conn(v, offer=0), close(1, 0), close(0, 1)], {}),
+        ('overlap-fatalB-cleanA', [conn(v, offer=0), close(1, 1), close(0, 0)], {}),
+        ('overlap-cleanA-fatalB', [conn(v, offer=0), close(0, 0), close(1, 1)], {}),
+        ('overlap-abruptA-cleanB', [conn(v, offer=0), close(0, 2), close(1, 0)], {}),
+        ('overlap-abruptB-cleanA', [conn(v, offer=0), close(1, 2), close(0, 0)], {}),
+        ('overlap-abruptcA-cleanB-revive', [conn(v, offer=0), close(0, 3), close(1, 0)], {}),
+        ('overlap3-fatalA-cleanB-cleanC', [conn(v, offer=0), conn(v, offer=0), close(0, 1), close(1, 0), close(2, 0)], {}),
+        ('overlap3-cleanB-fatalC-cleanA', [conn(v, offer=0), conn(v, offer=0), close(1, 0), close(2, 1), close(0, 0)], {}),
+        ('overlap-both-open', [conn(v, offer=0)], {}),
         ('twice', [close(0), conn(v, offer=0), close(1)], {}),
         ('twice-fatal-second', [close(0), conn(v, offer=0), close(1, 1)], {}),
         ('twice-abrupt-server-second', [close(0), conn(v, offer=0), close(1, 2)], {}),
@@ -108,7 +120,7 @@ def middles(c, v, mech):
     return m
 
 
-QUICK_OLD = ('plain', 'anon-client-ffdh-only', 'keep-expired-nocert', 'ticket-expiry', 'ticket-expiry+1', 'cache-age+1', 'rotate-keep-old', 'rotate-drop-old', 'fatal',
+QUICK_OLD = ('plain', 'overlap-fatalA-cleanB', 'overlap-cleanA-fatalB', 'anon-client-ffdh-only', 'keep-expired-nocert', 'ticket-expiry', 'ticket-expiry+1', 'cache-age+1', 'rotate-keep-old', 'rotate-drop-old', 'fatal',
              'abrupt-server', 'tamper-body', 'client-drops-ems', 'sni-changed', 'foreign-server')
 
 
@@ -158,6 +170,23 @@ def scenarios(thorough=False):
                     evs = ([conn(v, **kw)] + [dict(e, **kwc) if e['e'] == 'conn' else dict(e) for e in mid]
                            + [conn(mv, offer=0, srv=srv, **kw2)])
                     out.append((tag, [c, other], evs))
+    # interleaving: handshake A is held up before the client's Finished reaches the server (hold point 1: whole
+    # second flight, 2: from the ChangeCipherSpec on); while A hangs, B offers the session ID + master secret A's
+    # client already knows; A is abandoned; C offers it again; D/E: a normal session still resumes afterwards
+    for v in (1, 2, 3):
+        for mech in ('sid', 'ticket', 'both'):
+            for hp in (1, 2):
+                for fv, kw in (('default', {}), ('cbc', {'menu': 6}), ('srp', {'kind': 1}), ('anon', {'kind': 2})):
+                    if not thorough and (v < 3 and (fv != 'default' or mech == 'ticket')):
+                        continue
+                    auth = {'srp': 1, 'anon': 2}.get(fv, 0)
+                    c = base_cfg(v, mech, auth)
+                    for tail, evs in (
+                            ('offer-while-held', [conn(v, half=hp, **kw), conn(v, offer=0, **kw), close(0, 2),
+                                                  conn(v, offer=0, **kw), conn(v, **kw), close(3, 0), conn(v, offer=3, **kw)]),
+                            ('two-held', [conn(v, half=hp, **kw), conn(v, half=3 - hp, **kw), conn(v, offer=1, **kw),
+                                          conn(v, offer=0, **kw), close(1, 0), close(0, 1)])):
+                        out.append(('v%d-%s-%s-held%d-%s' % (v, mech, fv, hp, tail), [c], evs))
     # single-bit flips of one TLS 1.2 ticket and one TLS 1.3 ticket (thorough: every bit)
     for v in (3, 4):
         c = base_cfg(v, 'ticket')
